@@ -2,7 +2,7 @@
 # seedtest.sh <patch.diff> <seeds> <prop> [prop…] : apply a seeded change to /repo, run the quick checks, undo.
 P="$1"; SEEDS="$2"; shift 2
 cd /repo && git apply "$P" || { echo "patch does not apply"; exit 2; }
-trap 'git -C /repo checkout -- . ; git -C /repo status --short | head -3' EXIT
+trap 'git -C /repo checkout -- . ; git -C /repo status --short | head -3; (cd /verif/harness && GOFLAGS=-mod=mod GOPROXY=off GOSUMDB=off GOTOOLCHAIN=local go build -tags verif -o hx . )' EXIT
 for prop in "$@"; do
   for s in $SEEDS; do
     out=$(cd /verif && VERIF_SEED=$s ./check $prop 2>/dev/null | grep -E 'VIOLATION|OK|KNOWN' | head -3 | tr '\n' ' ')
